@@ -31,6 +31,7 @@ def default_profile(rng):
         "mixed_lb": rng.choice([0, 0, 0.3]),
         "deallocs": rng.choice([0, 0, 0.5]),
         "rotation": rng.choice([0, 0, 0.15]),
+        "neg_ub": rng.choice([0, 0, 0.3]),
         "counter": rng.random() < 0.15,
     }
 
@@ -77,6 +78,8 @@ class LoopGen:
             lb = r.choice([0, 0, 0, 1, 2])
             step = r.choice([1, 1, 2, 3])
             ub = r.choice([0, 1, 2, 3, 4, 5, 7, 8])
+            if self.p.get("neg_ub") and r.random() < self.p["neg_ub"]:
+                ub = r.choice(["m2", "m3"])  # a negative constant upper bound: no iteration
             if self.p.get("mixed_lb") and r.random() < self.p["mixed_lb"]:
                 # constant upper bound and step, but a lower bound that is not a constant: an argument, or the induction
                 # variable of an enclosing loop (triangular nest)
@@ -289,6 +292,8 @@ def emit(ast) -> str:
     e(1, f"func.func @f(%arg0 : {TA}, %n0 : index, %n1 : index, %l0 : index, %t0 : index) {{")
     for c in CONSTS:
         e(2, f"%c{c} = arith.constant {c} : index")
+    e(2, "%cm2 = arith.constant -2 : index")
+    e(2, "%cm3 = arith.constant -3 : index")
     if ast.get("counter"):
         e(2, f"%cnt = memref.alloc() {{vsite = 900 : i64}} : {TC}")
         e(2, f"%cntv = memref.subview %cnt[0][1][1] : {TC} to {TCV}")
